@@ -65,7 +65,30 @@ func c04Profiles(tier string) []Profile {
 					Letter{"Flush", func(w *harness.World) { w.Flush() }},
 					Letter{"CloseStore", func(w *harness.World) { w.CloseStore() }})
 			}
-			return append(ls, snapLetters(w, alive, true)...)
+			ls = append(ls, snapLetters(w, alive, true)...)
+			// a reader parked inside a visit of a snapshot (at most one)
+			open := -1
+			for i, it := range w.Iters {
+				if !it.Closed {
+					open = i
+				}
+			}
+			if open >= 0 {
+				ls = append(ls, Letter{"IterNext", func(w *harness.World) { w.IterNext(open) }})
+			} else {
+				for i, sn := range w.Snaps {
+					if !sn.Closed && !sn.Reverted {
+						i := i
+						ls = append(ls, Letter{fmt.Sprintf("IterOpenSnap(s%d)", i), func(w *harness.World) { w.IterOpenSnap(i, "x") }})
+						break
+					}
+				}
+			}
+			return ls
+		},
+		Finish: func(w *harness.World) {
+			w.DrainIters()
+			StandardFinish(w)
 		}}
 	var conc []Profile
 	for _, sc := range c05More() {
@@ -73,7 +96,7 @@ func c04Profiles(tier string) []Profile {
 			conc = append(conc, sc.Profile(1))
 		}
 	}
-	return append(conc, p.Profile(fmt.Sprintf("every history of length <= %d interleaving Set/Delete/Evict/Flush/RemoveCollection/SetCollection(existing and new)/Close on the original with Snapshot (of the original and of snapshots, <= %d alive), full reads of a snapshot, FlushRevert of a snapshot, Close of a snapshot and the refused Set/Delete/Flush on a snapshot; at the end every open snapshot is compared, through the whole public read API, with the deep copy of the model taken when it was created, the original with the model, and every write or truncate issued during a snapshot letter is a violation", d, alive)))
+	return append(conc, p.Profile(fmt.Sprintf("every history of length <= %d interleaving Set/Delete/Evict/Flush/RemoveCollection/SetCollection(existing and new)/Close on the original with Snapshot (of the original and of snapshots, <= %d alive), full reads of a snapshot, an iterator parked inside a visit of a snapshot (which must survive the snapshot's Close and later mutations of the original), FlushRevert of a snapshot, Close of a snapshot and the refused Set/Delete/Flush on a snapshot; at the end every open snapshot is compared, through the whole public read API, with the deep copy of the model taken when it was created, the original with the model, and every write or truncate issued during a snapshot letter is a violation", d, alive)))
 }
 
 func init() {
